@@ -1,16 +1,24 @@
 /-
   C05 — translate_rotate is the exact rigid motion on every object.
   Model: CRModel/Rigid.lean (mirror of the `translate_rotate` methods of commonroad-io, see the header there).
-  All statements are over `Rat` (every float is a rational) and hold for ARBITRARY parameters `(c, s)`; the code passes
-  `(math.cos a, math.sin a)`, for which `c² + s² = 1` up to rounding — the isometry statements take `c² + s² = 1` as
-  hypothesis, the scaling statements show what happens otherwise (this is how the small-angle defect shows).
-  `τ > 0` is the value of TWO_PI.
+  All statements are over `Rat` (every float is a rational).  A motion `m : Mo` carries the matrix entries `(c, s)` — the code
+  passes `(math.cos a, math.sin a)` — the angle `a` that is added to orientations, the translation `t` and `τ = TWO_PI`.
+  * Statements about points need `c² + s² = 1` (isometry) or `0 < c² + s²` (non-singular).
+  * `(c, s)` and `a` are tied together by `Coherent m dir` (CRProofs/Rigid.lean): `dir` stands for `θ ↦ (cos θ, sin θ)`, and
+    coherence says `dir (θ + a) = rot c s (dir θ)` (angle-sum formulas) and `dir` has period `τ`.  Under it the headings of
+    the stored orientations turn by the SAME rotation as the points (`C05_scenario_headings`).
+  * "all moved" is relative to the fields of the model records.  The records list every world-frame attribute of the Python
+    classes; harness/c05.py holds the attribute table (ATTR_TABLE) with one decision per attribute and its reflection pass
+    stops the run when a class has a spatial attribute the table does not list.  Two world-frame attributes are NOT moved by
+    the code (area borders, dynamic-obstacle history): `C05_all_moved_scenario_partial` excludes them by name,
+    `C05_all_moved_scenario_full` is the statement including them, and it is refuted on two witnesses.
 -/
 import CRProofs.Rigid
+import Mathlib.Algebra.Order.Floor.Ring
 namespace CR.Rigid
 open CR.Iv
 
-/-! ### the motion of one point -/
+/-! ### the motion of one point: distances, order of translation and rotation, sense of rotation -/
 
 /-- squared distances scale by `c² + s²`. -/
 theorem C05_dist_sq (c s : Rat) (t p q : Pt) :
@@ -20,30 +28,52 @@ theorem C05_dist_sq (c s : Rat) (t p q : Pt) :
 theorem C05_isometry (c s : Rat) (h : c ^ 2 + s ^ 2 = 1) (t p q : Pt) :
     dist2 (tr c s t p) (tr c s t q) = dist2 p q := by rw [dist2_tr, h, one_mul]
 
-/-- The branch of the pinned tree (`|a| ≤ 0.05 ↦ cos = 1, sin = a`) is NOT a rigid motion for any `a ≠ 0`:
-    every distance between distinct points is changed (scaled by `√(1 + a²)`).  Witness that the unrepaired code
-    violates the property for every small non-zero angle, whatever the translation. -/
-theorem C05_small_angle_branch_not_rigid (a cosA sinA : Rat) (ha : a ≠ 0) (hs : -(1 / 20) ≤ a ∧ a ≤ 1 / 20) :
-    csBeforeFix a cosA sinA = (1, a) ∧
-    ∀ (t p q : Pt), p ≠ q → dist2 (tr 1 a t p) (tr 1 a t q) = (1 + a ^ 2) * dist2 p q
-      ∧ dist2 (tr 1 a t p) (tr 1 a t q) ≠ dist2 p q := by
-  constructor
-  · unfold csBeforeFix
-    by_cases h0 : a < 0
-    · have : ¬ (20⁻¹ : Rat) < -a := by norm_num; linarith
-      simp [h0, this]
-    · have : ¬ (20⁻¹ : Rat) < a := by norm_num; linarith [hs.2]
-      simp [h0, this]
-  · intro t p q hpq
-    have e : dist2 (tr 1 a t p) (tr 1 a t q) = (1 + a ^ 2) * dist2 p q := by rw [dist2_tr]; ring
-    refine ⟨e, ?_⟩
-    rw [e]
-    have hd := dist2_pos hpq
-    have ha2 : 0 < a ^ 2 := by positivity
-    nlinarith
+/-- Translate FIRST, then rotate about the origin — for all parameters: `tr` is the rotation applied to `p + t`; equivalently
+    the rotated point plus the ROTATED translation (not `rot p + t`, which is rotate-then-translate); the point `-t` goes to
+    the origin; with `(c, s) = (1, 0)` the motion is the pure translation. -/
+theorem C05_translate_then_rotate (c s : Rat) (t p : Pt) :
+    tr c s t p = rot c s ⟨p.x + t.x, p.y + t.y⟩
+    ∧ tr c s t p = ⟨(rot c s p).x + (rot c s t).x, (rot c s p).y + (rot c s t).y⟩
+    ∧ tr c s t ⟨-t.x, -t.y⟩ = ⟨0, 0⟩
+    ∧ tr 1 0 t p = ⟨p.x + t.x, p.y + t.y⟩ := by
+  refine ⟨rfl, ?_, ?_, ?_⟩ <;> (apply Pt.ext' <;> simp only [tr, rot] <;> ring)
 
-/-- undoing the motion restores the original: rotate back by `-a` (cos = c, sin = -s) with zero translation, then translate
-    by `-t` with zero angle (cos = 1, sin = 0). -/
+/-- rotate-then-translate is a different map: the two agree on a point iff the translation is a fixed point of the
+    rotation (so a code path that swaps the order is told apart by every `t` with `rot c s t ≠ t`). -/
+theorem C05_order_matters (c s : Rat) (t p : Pt) :
+    tr c s t p = ⟨(rot c s p).x + t.x, (rot c s p).y + t.y⟩ ↔ rot c s t = t := by
+  constructor
+  · intro h
+    simp only [tr, rot, Pt.mk.injEq] at h
+    apply Pt.ext' <;> simp only [rot] <;> linarith [h.1, h.2]
+  · intro h
+    have hx : (rot c s t).x = t.x := by rw [h]
+    have hy : (rot c s t).y = t.y := by rw [h]
+    simp only [rot] at hx hy
+    apply Pt.ext' <;> simp only [tr, rot] <;> linarith
+
+/-- Sense of rotation — counter-clockwise, for all `(c, s)`: the unit vector `e₁` goes to `(c, s)` and `e₂` to `(-s, c)`;
+    these are the values the harness reads back from every public `translate_rotate` (probe cases). -/
+theorem C05_rotation_sense (c s : Rat) :
+    tr c s ⟨0, 0⟩ ⟨1, 0⟩ = ⟨c, s⟩ ∧ tr c s ⟨0, 0⟩ ⟨0, 1⟩ = ⟨-s, c⟩ ∧ rot c s ⟨1, 0⟩ = ⟨c, s⟩ := by
+  refine ⟨?_, ?_, ?_⟩ <;> (apply Pt.ext' <;> simp [tr, rot])
+
+/-- A pair `(1, a)` in place of `(cos a, sin a)` is NOT a rigid motion for any `a ≠ 0`: every distance between distinct
+    points is scaled by `√(1 + a²)`, whatever the translation.  The pinned tree used this pair for `|a| ≤ 0.05`
+    (transform.py, small-angle branch; repaired by `fix: translation_rotation_matrix uses the exact cosine and sine for
+    small angles`); corpus/C05/small_angle_lanelet.json replays it on the real code. -/
+theorem C05_witness_small_angle_pair_not_rigid (a : Rat) (ha : a ≠ 0) (t p q : Pt) (hpq : p ≠ q) :
+    dist2 (tr 1 a t p) (tr 1 a t q) = (1 + a ^ 2) * dist2 p q
+      ∧ dist2 (tr 1 a t p) (tr 1 a t q) ≠ dist2 p q := by
+  have e : dist2 (tr 1 a t p) (tr 1 a t q) = (1 + a ^ 2) * dist2 p q := by rw [dist2_tr]; ring
+  refine ⟨e, ?_⟩
+  rw [e]
+  have hd := dist2_pos hpq
+  have ha2 : 0 < a ^ 2 := by positivity
+  nlinarith
+
+/-- undoing the motion restores the point: rotate back by `-a` (cos = c, sin = -s) with zero translation, then translate
+    by `-t` with zero angle (cos = 1, sin = 0).  (On composites: `C05_scenario_inverse`.) -/
 theorem C05_inverse (c s : Rat) (h : c ^ 2 + s ^ 2 = 1) (t p : Pt) :
     tr 1 0 ⟨-t.x, -t.y⟩ (tr c (-s) ⟨0, 0⟩ (tr c s t p)) = p := by
   apply Pt.ext'
@@ -59,15 +89,17 @@ theorem C05_compose (c₁ s₁ c₂ s₂ : Rat) (h : c₁ ^ 2 + s₁ ^ 2 = 1) (t
   · simp only [tr]; linear_combination (-(c₂ * t₂.x) + s₂ * t₂.y) * h
   · simp only [tr]; linear_combination (-(s₂ * t₂.x) - c₂ * t₂.y) * h
 
-/-- the velocity vector of a point-mass state `v = r (cos φ, sin φ)` becomes `r (cos (φ + a), sin (φ + a))` (angle
-    addition formulas): its derived orientation `atan2(v_y, v_x)` turns by `a`, its length is kept. -/
-theorem C05_pm_velocity (c s r cφ sφ : Rat) :
-    rot c s ⟨r * cφ, r * sφ⟩ = ⟨r * (cφ * c - sφ * s), r * (sφ * c + cφ * s)⟩
-    ∧ (c ^ 2 + s ^ 2 = 1 → ∀ v : Pt, (rot c s v).x ^ 2 + (rot c s v).y ^ 2 = v.x ^ 2 + v.y ^ 2) := by
+/-- The velocity vector of a point-mass state is rotated by the same matrix as the points: its length is kept, and if it
+    points in direction `φ` (`v = r · dir φ`) it points in direction `φ + a` afterwards (`r · dir (φ + a)`) — so the derived
+    orientation of a PMState turns by `a` as an angle (the harness compares `atan2` of the real velocities). -/
+theorem C05_pm_velocity (m : Mo) (dir : Rat → Pt) (hc : Coherent m dir) (r φ : Rat) :
+    m.rv ⟨r * (dir φ).x, r * (dir φ).y⟩ = ⟨r * (dir (φ + m.a)).x, r * (dir (φ + m.a)).y⟩
+    ∧ (m.c ^ 2 + m.s ^ 2 = 1 → ∀ v : Pt, (m.rv v).x ^ 2 + (m.rv v).y ^ 2 = v.x ^ 2 + v.y ^ 2) := by
   constructor
-  · apply Pt.ext' <;> simp only [rot] <;> ring
+  · rw [hc.add]
+    apply Pt.ext' <;> simp only [Mo.rv, rot] <;> ring
   · intro h v
-    simp only [rot]; linear_combination (v.x ^ 2 + v.y ^ 2) * h
+    simp only [Mo.rv, rot]; linear_combination (v.x ^ 2 + v.y ^ 2) * h
 
 /-! ### polygons, rectangles -/
 
@@ -75,9 +107,11 @@ theorem C05_pm_velocity (c s r cφ sφ : Rat) :
 theorem C05_shoelace (c s : Rat) (t : Pt) (l : List Pt) (hl : ClosedRing l) :
     chain2 (l.map (tr c s t)) = (c ^ 2 + s ^ 2) * chain2 l := chain2_map_closed c s t l hl
 
-/-- polygon areas (and their orientation) are preserved by the rigid motion. -/
-theorem C05_area_preserved (c s : Rat) (h : c ^ 2 + s ^ 2 = 1) (t : Pt) (l : List Pt) (hl : ClosedRing l) :
-    chain2 (l.map (tr c s t)) = chain2 l := by rw [chain2_map_closed c s t l hl, h, one_mul]
+/-- the area functional used on composites (`areaOf`, fan from the first vertex) is the shoelace sum on closed rings, and
+    it is preserved for every vertex list, closed or not. -/
+theorem C05_area_functional (c s : Rat) (h : c ^ 2 + s ^ 2 = 1) (t : Pt) (l : List Pt) :
+    areaOf (l.map (tr c s t)) = areaOf l ∧ (ClosedRing l → areaOf l = chain2 l) :=
+  ⟨by rw [areaOf_map, h, one_mul], areaOf_eq_chain2 l⟩
 
 /-- `Polygon.__init__` (close the ring, orient clockwise) commutes with the motion: the polygon constructed from the moved
     vertices stores exactly the moved vertices of the original polygon — for every vertex list, including the error case. -/
@@ -85,32 +119,39 @@ theorem C05_polygon_ctor_commutes (c s : Rat) (t : Pt) (hk : 0 < c ^ 2 + s ^ 2) 
     polyMk (l.map (tr c s t)) = (polyMk l).map (List.map (tr c s t)) := polyMk_map c s t hk l
 
 /-- what `Polygon.__init__` stores is in normal form (constructing again changes nothing): the well-formedness hypothesis
-    `Shape.WF` / `Lanelet.WF` of the `all_moved` theorems holds for every polygon that came out of the constructor. -/
+    `Shape.WF` / `Lanelet.WF` of the composite theorems holds for every polygon that came out of the constructor. -/
 theorem C05_polygon_normal_form (vs r : List Pt) (h : polyMk vs = .ok r) : polyMk r = .ok r := polyMk_idem vs r h
 
-/-- the corner points of the moved rectangle (centre moved, orientation `θ + a`: angle addition for its cosine and sine)
-    are the moved corner points: length and width are untouched, the rectangle is moved as a rigid body. -/
+/-- the corner points of the rectangle with moved centre and heading `rot c s (cθ, sθ)` are the moved corner points:
+    length and width are untouched, the rectangle is moved as a rigid body.  (With `Coherent`, `rot c s (dir θ)` IS the
+    heading of the stored orientation `make_valid_orientation(θ + a)`: `C05_scenario_headings`.) -/
 theorem C05_rect_corners (c s : Rat) (t ctr : Pt) (l w cθ sθ : Rat) :
-    rectCorners l w (tr c s t ctr) (cθ * c - sθ * s) (sθ * c + cθ * s)
-      = (rectCorners l w ctr cθ sθ).map (tr c s t) := by
-  simp only [rectCorners, List.map_cons, List.map_nil, tr]
-  refine List.cons_eq_cons.mpr ⟨?_, List.cons_eq_cons.mpr ⟨?_, List.cons_eq_cons.mpr ⟨?_, List.cons_eq_cons.mpr ⟨?_, rfl⟩⟩⟩⟩ <;>
-    (apply Pt.ext' <;> ring)
+    rectCorners l w (tr c s t ctr) (rot c s ⟨cθ, sθ⟩).x (rot c s ⟨cθ, sθ⟩).y
+      = (rectCorners l w ctr cθ sθ).map (tr c s t) := rectCorners_tr c s t ctr l w cθ sθ
 
 /-! ### orientations -/
 
-/-- `make_valid_orientation(θ + a)` is `θ + a` as an angle (differs by a multiple of `τ`) and lies in `[-τ, τ]`. -/
+/-- `make_valid_orientation(θ + a)` for a valid orientation `θ` and a valid angle `a`, computed exactly: it IS `θ + a` when
+    that lies in `[-τ, τ]`, `θ + a - τ` when it is above, `θ + a + τ` when it is below: the multiple `k` of `τ` is
+    0, -1 or +1 and is determined. -/
+theorem C05_angle_wrap_exact (m : Mo) (hτ : 0 < m.τ) (θ : Rat) (hθ : -m.τ ≤ θ ∧ θ ≤ m.τ) (ha : -m.τ ≤ m.a ∧ m.a ≤ m.τ) :
+    m.wr θ = if m.τ < θ + m.a then θ + m.a - m.τ else if θ + m.a < -m.τ then θ + m.a + m.τ else θ + m.a :=
+  makeValid_exact m.τ hτ (θ + m.a) (by linarith [hθ.1, ha.1]) (by linarith [hθ.2, ha.2])
+
+/-- in particular no wrap happens when `θ + a` is already a valid orientation. -/
+theorem C05_angle_no_wrap (m : Mo) (hτ : 0 < m.τ) (θ : Rat) (h1 : -m.τ ≤ θ + m.a) (h2 : θ + m.a ≤ m.τ) :
+    m.wr θ = θ + m.a := by
+  have := makeValid_exact m.τ hτ (θ + m.a) (by linarith) (by linarith)
+  rw [show m.wr θ = makeValid m.τ (θ + m.a) from rfl, this]
+  have n1 : ¬ m.τ < θ + m.a := by linarith
+  have n2 : ¬ θ + m.a < -m.τ := by linarith
+  simp [n1, n2]
+
+/-- for EVERY `θ` (also outside `[-τ, τ]`): the result is `θ + a` as an angle and a valid orientation. -/
 theorem C05_angle_wrap (m : Mo) (hτ : 0 < m.τ) (θ : Rat) :
     ∃ k : Int, m.wr θ = θ + m.a + k * m.τ ∧ -m.τ ≤ m.wr θ ∧ m.wr θ ≤ m.τ := by
   obtain ⟨k, e, h1, h2⟩ := makeValid_spec m.τ hτ (θ + m.a)
   exact ⟨k, e, h1, h2⟩
-
-/-- turning back by `-a` restores the orientation as an angle. -/
-theorem C05_angle_inverse (τ a θ : Rat) (hτ : 0 < τ) :
-    ∃ k : Int, makeValid τ (makeValid τ (θ + a) + -a) = θ + k * τ := by
-  obtain ⟨k1, e1, _, _⟩ := makeValid_spec τ hτ (θ + a)
-  obtain ⟨k2, e2, _, _⟩ := makeValid_spec τ hτ (makeValid τ (θ + a) + -a)
-  exact ⟨k1 + k2, by rw [e2, e1]; push_cast; ring⟩
 
 /-- shifting a constructed orientation interval never raises; both ends move by `a` plus the same multiple of `τ`:
     the length is unchanged and the ends stay in `[-τ, τ]`. -/
@@ -121,52 +162,215 @@ theorem C05_interval_shift (m : Mo) (h : Adm m) (i : I) (h1 : i.lo ≤ i.hi) (h2
   obtain ⟨k, e1, e2, _, _⟩ := hm
   simp only [length, e1, e2]; ring
 
-/-! ### all components moved, none forgotten, never fails -/
+/-- the multiple of `τ` is determined for a constructed interval (ends valid orientations) and a valid angle: 0 when
+    `[lo + a, hi + a]` is inside `[-τ, τ]`, -1 when `hi + a > τ`, +1 when `lo + a < -τ`. -/
+theorem C05_interval_shift_exact (τ a : Rat) (hτ : 0 < τ) (i : I) (h1 : i.lo ≤ i.hi) (h2 : i.hi - i.lo < τ)
+    (hlo : -τ ≤ i.lo) (hhi : i.hi ≤ τ) (ha1 : -τ ≤ a) (ha2 : a ≤ τ) :
+    addAngle τ i a = .ok (if τ < i.hi + a then ⟨i.lo + a - τ, i.hi + a - τ⟩
+                          else if i.lo + a < -τ then ⟨i.lo + a + τ, i.hi + a + τ⟩ else ⟨i.lo + a, i.hi + a⟩) :=
+  addAngle_exact τ a hτ i h1 h2 hlo hhi ha1 ha2
 
-/-- every shape kind (rectangle, circle, polygon, arbitrarily nested group): the call succeeds and EVERY stored point is
-    moved, every orientation turned, every dimension (length, width, radius) unchanged. -/
+/-! ### every component kind: the call succeeds and the listed content is moved -/
+
+/-- every shape kind (rectangle, circle, polygon, arbitrarily nested group): the call succeeds and every stored point is
+    moved, every orientation turned, every dimension (length, width, radius) unchanged, polygons vertex by vertex. -/
 theorem C05_all_moved_shape (m : Mo) (h : Adm m) (sh : Shape) (hw : sh.WF) :
     ∃ sh', sh.move m = .ok sh' ∧ Moved m sh.obs sh'.obs ∧ sh'.WF := Shape.move_spec h sh hw
 
-/-- every state (position array or region, orientation scalar or interval, point-mass velocity vector). -/
+/-- every admissible state (position array or region, orientation scalar or interval, point-mass velocity vector). -/
 theorem C05_all_moved_state (m : Mo) (h : Adm m) (st : State) (hw : st.WF m.τ) :
     ∃ st', st.move m = .ok st' ∧ Moved m st.obs st'.obs ∧ st'.WF m.τ := State.move_spec h st hw
+
+/-- the `TypeError` branches of `State.translate_rotate` (state.py:272-276, 284-288): a position that is neither an array
+    nor a shape, or an orientation that is neither a number nor an `AngleInterval`, is rejected — these are exactly the states
+    excluded by `State.WF`, i.e. "never fails" is a statement about admissible states and the failure outside is modelled. -/
+theorem C05_inadmissible_state_rejected (m : Mo) (h : Adm m) (st : State) :
+    (st.pos = .other → st.move m = .error .type)
+    ∧ (st.pos.WF → st.ori = .other → st.move m = .error .type) := by
+  constructor
+  · intro hp
+    simp [State.move, guard_ok h, hp, Pos.move]
+  · intro hw ho
+    obtain ⟨p', e, _, _⟩ := Pos.move_spec h st.pos hw
+    simp [State.move, guard_ok h, e, ho, Ori.move]
 
 /-- a lanelet: left / center / right polyline of any length, the stop line, the polygon. -/
 theorem C05_all_moved_lanelet (m : Mo) (h : Adm m) (la : Lanelet) (hw : la.WF) :
     ∃ la', la.move m = .ok la' ∧ Moved m la.obs la'.obs ∧ la'.WF := Lanelet.move_spec h la hw
 
-/-- every obstacle role: static, dynamic (trajectory prediction of any length / set-based prediction / none),
-    phantom, environment. -/
-theorem C05_all_moved_obstacle (m : Mo) (h : Adm m) (o : Obstacle) (hw : o.WF m.τ) :
-    ∃ o', o.move m = .ok o' ∧ Moved m o.obs o'.obs := Obstacle.move_spec h o hw
+/-- every obstacle role — static, dynamic (trajectory prediction of any length / set-based prediction / none), phantom,
+    environment: initial state, predicted states, occupancies and the environment shape are moved; the body-frame shapes
+    (`obstacle_shape`, `TrajectoryPrediction.shape`) stay; the `history` of a dynamic obstacle is NOT moved (last clause). -/
+theorem C05_all_moved_obstacle_partial (m : Mo) (h : Adm m) (o : Obstacle) (hw : o.WF m.τ) :
+    ∃ o', o.move m = .ok o' ∧ Moved m o.obs o'.obs ∧ o'.WF m.τ ∧ o'.bodies = o.bodies ∧ o'.histObs = o.histObs :=
+  Obstacle.move_spec h o hw
 
-/-- THE property on the model: for a scenario containing ANY mix and number of lanelets (with stop lines), traffic signs,
-    traffic lights and obstacles of all four roles, `translate_rotate` with an admissible angle never fails, and the list
-    of all stored points of the result is `tr` mapped over the list of all stored points of the input (none forgotten),
-    all orientations are turned by `a`, all orientation intervals shifted, all dimensions unchanged. -/
-theorem C05_all_moved_scenario (m : Mo) (h : Adm m) (sc : Scenario) (hw : sc.WF m.τ) :
-    ∃ sc', sc.move m = .ok sc' ∧ Moved m sc.obs sc'.obs := Scenario.move_spec h sc hw
+/-- a traffic light: the position is moved, the optional `shape` (body frame) stays.
+    (definitional: documents the model; tied to the code by the correspondence.) -/
+theorem C05_light (m : Mo) (h : Adm m) (l : Light) :
+    ∃ l', l.move m = .ok l' ∧ l'.pos = m.mv l.pos ∧ l'.shape = l.shape :=
+  ⟨⟨m.mv l.pos, l.shape⟩, by simp [Light.move, movePosition, guard_ok h], rfl, rfl⟩
 
-/-- the same for a planning-problem set: initial states and all goal states (regions, orientation intervals). -/
+/-! ### the scenario: what is moved, what is left, and the full statement refuted -/
+
+/-- PARTIAL (excluded, by name: `Scenario.areas` = `lanelet_network.areas[*].border[*].border_vertices` and
+    `Obstacle.dynamic … hist` = `DynamicObstacle.history`; both are world-frame and left in place by the code, see
+    `C05_left_in_place`, `C05_witness_*`).  For a scenario containing ANY mix and number of lanelets (with stop lines),
+    traffic signs, traffic lights and obstacles of all four roles, `translate_rotate` with an admissible angle never fails, and
+    — for the fields of the model record other than the two excluded ones — the list of stored points of the result is `tr`
+    mapped over the list of stored points of the input (nothing of it skipped or added), all orientations are
+    `make_valid_orientation(θ + a)`, all orientation intervals shifted, all dimensions unchanged, every polygon / polyline /
+    rectangle moved as a whole.  The model record lists every world-frame attribute of the Python classes
+    (harness ATTR_TABLE + reflection pass). -/
+theorem C05_all_moved_scenario_partial (m : Mo) (h : Adm m) (sc : Scenario) (hw : sc.WF m.τ) :
+    ∃ sc', sc.move m = .ok sc' ∧ Moved m sc.obs sc'.obs ∧ sc'.WF m.τ :=
+  let ⟨sc', e, hm, hw', _, _⟩ := Scenario.move_spec h sc hw
+  ⟨sc', e, hm, hw'⟩
+
+/-- The statement at full strength ("every stored point"): ALL world-frame content of the scenario record, including area
+    borders and obstacle histories, is moved.  FALSE for the code as it is: `C05_witness_area_not_moved`,
+    `C05_witness_history_not_moved`. -/
+def C05_all_moved_scenario_full : Prop :=
+  ∀ (m : Mo), Adm m → ∀ sc : Scenario, sc.WF m.τ → ∃ sc', sc.move m = .ok sc' ∧ Moved m sc.obsFull sc'.obsFull
+
+/-- what the code does with the two excluded fields, for every scenario: area borders and histories are left exactly as
+    they were (model of: no `translate_rotate` on `Area`/`AreaBorder`, `DynamicObstacle.translate_rotate` ignores `history`). -/
+theorem C05_left_in_place (m : Mo) (h : Adm m) (sc : Scenario) (hw : sc.WF m.τ) :
+    ∃ sc', sc.move m = .ok sc' ∧ sc'.areas = sc.areas ∧ sc'.leftObs = sc.leftObs :=
+  let ⟨sc', e, _, _, hl, ha⟩ := Scenario.move_spec h sc hw
+  ⟨sc', e, ha, hl⟩
+
+/-- the 3-4-5 rotation with `τ = 7 > 2·3`, `a = 1`, translation `(2, -1)`. -/
+def exMo : Mo := ⟨3 / 5, 4 / 5, 1, ⟨2, -1⟩, 7⟩
+
+theorem exMo_adm : Adm exMo := ⟨by norm_num [exMo], by decide +kernel, by norm_num [exMo]⟩
+
+/-- scenario with a single area whose border has the vertex (1, 0) -/
+def exAreaScenario : Scenario := ⟨[], [], [], [], [[[⟨1, 0⟩]]]⟩
+/-- scenario with a single dynamic obstacle at (0, 0) whose history holds a state at (1, 0) -/
+def exHistScenario : Scenario :=
+  ⟨[], [], [], [.dynamic (.rect 4 2 ⟨0, 0⟩ 0) ⟨.pt ⟨0, 0⟩, .exact 0, none⟩ .none [⟨.pt ⟨1, 0⟩, .exact 0, none⟩]], []⟩
+
+/-- WITNESS (replayed on the real code: corpus/C05/area_known_finding.json; recorded as known finding
+    `C05/LaneletNetwork.translate_rotate/area-border-not-moved`, patch in proposed_fixes/): an area border stays where it
+    was, so the scenario as a whole is not moved. -/
+theorem C05_witness_area_not_moved :
+    ∀ sc', exAreaScenario.move exMo = .ok sc' → ¬ Moved exMo exAreaScenario.obsFull sc'.obsFull := by
+  apply Scenario.not_moved_full exMo_adm exAreaScenario
+  · exact ⟨by simp [exAreaScenario], by simp [exAreaScenario]⟩
+  · simp only [Scenario.leftObs, exAreaScenario, obsL, Obs.ofPts, Obs.nil, Obs.app_pts, List.flatten]
+    decide +kernel
+
+/-- WITNESS (replayed on the real code: corpus/C05/history_known_finding.json; recorded as known finding
+    `C05/DynamicObstacle.translate_rotate/history-not-moved`, patch in proposed_fixes/): the history of a dynamic obstacle
+    stays where it was. -/
+theorem C05_witness_history_not_moved :
+    ∀ sc', exHistScenario.move exMo = .ok sc' → ¬ Moved exMo exHistScenario.obsFull sc'.obsFull := by
+  apply Scenario.not_moved_full exMo_adm exHistScenario
+  · refine ⟨by simp [exHistScenario], ?_⟩
+    intro o ho
+    simp only [exHistScenario, List.mem_singleton] at ho
+    subst ho
+    exact ⟨⟨trivial, trivial⟩, trivial⟩
+  · simp only [Scenario.leftObs, exHistScenario, obsL, Obstacle.histObs, State.obs, Pos.obs, Ori.obs, Obs.ofPts, Obs.nil,
+      Obs.app_pts, List.flatten, Option.toList, List.append_nil, List.nil_append, List.map_cons, List.map_nil]
+    decide +kernel
+
+theorem C05_witness_full_is_false : ¬ C05_all_moved_scenario_full := by
+  intro hfull
+  obtain ⟨sc', e, hm⟩ := hfull exMo exMo_adm exAreaScenario ⟨by simp [exAreaScenario], by simp [exAreaScenario]⟩
+  exact C05_witness_area_not_moved sc' e hm
+
+/-- a planning-problem set: initial states and all goal states (regions, orientation intervals) — the `Problem` record has no
+    further spatial field. -/
 theorem C05_all_moved_problems (m : Mo) (h : Adm m) (l : List Problem) (hw : ∀ pp ∈ l, pp.WF m.τ) :
-    ∃ l', moveProblems m l = .ok l' ∧ Moved m (obsL Problem.obs l) (obsL Problem.obs l') :=
+    ∃ l', moveProblems m l = .ok l' ∧ Moved m (obsL Problem.obs l) (obsL Problem.obs l') ∧ (∀ pp ∈ l', pp.WF m.τ) :=
   moveProblems_spec h l hw
 
-/-- Consequently (c² + s² = 1): the relative configuration of ALL objects of the scenario is preserved — the distance between
-    any two stored points (of the same or of different components) is the same before and after. -/
-theorem C05_scenario_isometry (m : Mo) (h : Adm m) (h1 : m.c ^ 2 + m.s ^ 2 = 1) (sc : Scenario) (hw : sc.WF m.τ) :
-    ∃ sc', sc.move m = .ok sc' ∧ sc'.obs.pts = sc.obs.pts.map m.mv
-      ∧ ∀ i j : Nat, ∀ p q p' q' : Pt, sc.obs.pts[i]? = some p → sc.obs.pts[j]? = some q →
-          sc'.obs.pts[i]? = some p' → sc'.obs.pts[j]? = some q' → dist2 p' q' = dist2 p q := by
-  obtain ⟨sc', e, hm⟩ := Scenario.move_spec h sc hw
-  refine ⟨sc', e, hm.pts, ?_⟩
-  intro i j p q p' q' hp hq hp' hq'
-  rw [hm.pts, List.getElem?_map, hp] at hp'
-  rw [hm.pts, List.getElem?_map, hq] at hq'
-  simp only [Option.map_some, Option.some.injEq] at hp' hq'
-  rw [← hp', ← hq']
-  exact C05_isometry m.c m.s h1 m.t p q
+/-! ### consequences on composites (c² + s² = 1): distances, areas, lengths, headings, inverse -/
+
+/-- On the scenario as a whole: the distance between ANY two listed points (of the same or of different components) is
+    preserved; the area of EVERY polygon (lanelet polygons, polygon shapes of occupancies / regions / environment
+    obstacles) is preserved; the squared length of EVERY segment of every polyline (left / center / right boundary of every
+    lanelet, stop lines) is preserved — hence every lanelet length, being the sum of the roots of equal numbers. -/
+theorem C05_scenario_preserved (m : Mo) (h : Adm m) (h1 : m.c ^ 2 + m.s ^ 2 = 1) (sc : Scenario) (hw : sc.WF m.τ) :
+    ∃ sc', sc.move m = .ok sc'
+      ∧ (∀ i j : Nat, ∀ p q p' q' : Pt, sc.obs.pts[i]? = some p → sc.obs.pts[j]? = some q →
+          sc'.obs.pts[i]? = some p' → sc'.obs.pts[j]? = some q' → dist2 p' q' = dist2 p q)
+      ∧ sc'.obs.rings.map areaOf = sc.obs.rings.map areaOf
+      ∧ sc'.obs.lines.map segs2 = sc.obs.lines.map segs2
+      ∧ sc'.obs.dims = sc.obs.dims := by
+  obtain ⟨sc', e, hm, _, _, _⟩ := Scenario.move_spec h sc hw
+  exact ⟨sc', e, hm.dists h1, hm.areas h1, hm.lengths h1, hm.dims⟩
+
+/-- the same on one lanelet: polygon area, and the segment lengths of `[left, center, right, stop line]`. -/
+theorem C05_lanelet_preserved (m : Mo) (h : Adm m) (h1 : m.c ^ 2 + m.s ^ 2 = 1) (la : Lanelet) (hw : la.WF) :
+    ∃ la', la.move m = .ok la'
+      ∧ areaOf la'.poly = areaOf la.poly
+      ∧ [la'.left, la'.center, la'.right, stopLine la'.stop].map segs2
+          = [la.left, la.center, la.right, stopLine la.stop].map segs2 := by
+  obtain ⟨la', e, hm, _⟩ := Lanelet.move_spec h la hw
+  refine ⟨la', e, ?_, hm.lengths h1⟩
+  have := hm.areas h1
+  simpa [Lanelet.obs] using this
+
+/-- the same on one obstacle (any role): distances between its points, polygon areas, dimensions. -/
+theorem C05_obstacle_preserved (m : Mo) (h : Adm m) (h1 : m.c ^ 2 + m.s ^ 2 = 1) (o : Obstacle) (hw : o.WF m.τ) :
+    ∃ o', o.move m = .ok o'
+      ∧ (∀ i j : Nat, ∀ p q p' q' : Pt, o.obs.pts[i]? = some p → o.obs.pts[j]? = some q →
+          o'.obs.pts[i]? = some p' → o'.obs.pts[j]? = some q' → dist2 p' q' = dist2 p q)
+      ∧ o'.obs.rings.map areaOf = o.obs.rings.map areaOf ∧ o'.obs.dims = o.obs.dims := by
+  obtain ⟨o', e, hm, _⟩ := Obstacle.move_spec h o hw
+  exact ⟨o', e, hm.dists h1, hm.areas h1, hm.dims⟩
+
+/-- Points and headings turn by the SAME rotation.  Let `dir` be coherent with `m` (it stands for `θ ↦ (cos θ, sin θ)`, and
+    coherence is `c = cos a`, `s = sin a` in the form of the angle-sum formulas).  Then in the moved scenario
+    * the heading of every stored orientation is the old heading rotated by `(c, s)` — the matrix that moves the points,
+    * both end headings of every orientation interval are rotated by `(c, s)`,
+    * the corner points of every stored rectangle (computed from its NEW centre and NEW orientation) are the moved corners,
+    * every point-mass velocity vector is rotated by `(c, s)`. -/
+theorem C05_scenario_headings (m : Mo) (h : Adm m) (dir : Rat → Pt) (hc : Coherent m dir) (sc : Scenario)
+    (hw : sc.WF m.τ) :
+    ∃ sc', sc.move m = .ok sc'
+      ∧ sc'.obs.angs.map dir = sc.obs.angs.map (fun θ => m.rv (dir θ))
+      ∧ sc'.obs.ivs.map (fun i => (dir i.lo, dir i.hi)) = sc.obs.ivs.map (fun i => (m.rv (dir i.lo), m.rv (dir i.hi)))
+      ∧ sc'.obs.rects.map (Rect.corners dir) = sc.obs.rects.map (fun r => (r.corners dir).map m.mv)
+      ∧ sc'.obs.vels = sc.obs.vels.map m.rv := by
+  obtain ⟨sc', e, hm, _, _, _⟩ := Scenario.move_spec h sc hw
+  exact ⟨sc', e, hm.headings hc h.τpos, IvsMoved.headings hc hm.ivs, hm.corners hc h.τpos, hm.vels⟩
+
+/-- the same for planning problems (initial states, goal regions with rectangles and orientation intervals). -/
+theorem C05_problems_headings (m : Mo) (h : Adm m) (dir : Rat → Pt) (hc : Coherent m dir) (l : List Problem)
+    (hw : ∀ pp ∈ l, pp.WF m.τ) :
+    ∃ l', moveProblems m l = .ok l'
+      ∧ (obsL Problem.obs l').angs.map dir = (obsL Problem.obs l).angs.map (fun θ => m.rv (dir θ))
+      ∧ (obsL Problem.obs l').ivs.map (fun i => (dir i.lo, dir i.hi))
+          = (obsL Problem.obs l).ivs.map (fun i => (m.rv (dir i.lo), m.rv (dir i.hi)))
+      ∧ (obsL Problem.obs l').rects.map (Rect.corners dir)
+          = (obsL Problem.obs l).rects.map (fun r => (r.corners dir).map m.mv) := by
+  obtain ⟨l', e, hm, _⟩ := moveProblems_spec h l hw
+  exact ⟨l', e, hm.headings hc h.τpos, IvsMoved.headings hc hm.ivs, hm.corners hc h.τpos⟩
+
+/-- Undoing the motion on the whole scenario: `translate_rotate(0, -a)` followed by `translate_rotate(-t, 0)` (all three
+    calls succeed) gives back every listed point, polygon, polyline, dimension and velocity vector EXACTLY, every orientation
+    as an angle (`θ + k τ`), every orientation interval shifted by a multiple of `τ` (both ends alike). -/
+theorem C05_scenario_inverse (m : Mo) (h : Adm m) (h1 : m.c ^ 2 + m.s ^ 2 = 1) (sc : Scenario) (hw : sc.WF m.τ) :
+    ∃ sc1 sc2 sc3, sc.move m = .ok sc1 ∧ sc1.move m.invRot = .ok sc2 ∧ sc2.move m.invTr = .ok sc3
+      ∧ Restored m.τ sc.obs sc3.obs := by
+  obtain ⟨sc1, e1, hm1, hw1, _, _⟩ := Scenario.move_spec h sc hw
+  obtain ⟨sc2, e2, hm2, hw2, _, _⟩ := Scenario.move_spec h.invRot sc1 hw1
+  obtain ⟨sc3, e3, hm3, _, _, _⟩ := Scenario.move_spec h.invTr sc2 hw2
+  exact ⟨sc1, sc2, sc3, e1, e2, e3, hm1.restored h1 h.τpos hm2 hm3⟩
+
+/-- the same for a planning-problem set. -/
+theorem C05_problems_inverse (m : Mo) (h : Adm m) (h1 : m.c ^ 2 + m.s ^ 2 = 1) (l : List Problem)
+    (hw : ∀ pp ∈ l, pp.WF m.τ) :
+    ∃ l1 l2 l3, moveProblems m l = .ok l1 ∧ moveProblems m.invRot l1 = .ok l2 ∧ moveProblems m.invTr l2 = .ok l3
+      ∧ Restored m.τ (obsL Problem.obs l) (obsL Problem.obs l3) := by
+  obtain ⟨l1, e1, hm1, hw1⟩ := moveProblems_spec h l hw
+  obtain ⟨l2, e2, hm2, hw2⟩ := moveProblems_spec h.invRot l1 hw1
+  obtain ⟨l3, e3, hm3, _⟩ := moveProblems_spec h.invTr l2 hw2
+  exact ⟨l1, l2, l3, e1, e2, e3, hm1.restored h1 h.τpos hm2 hm3⟩
 
 /-- an angle outside `[-2π, 2π]` is rejected by the assertion at the head of `Scenario.translate_rotate`. -/
 theorem C05_guard_rejects (m : Mo) (h : validOrientation m.τ m.a = false) (sc : Scenario) :
@@ -174,30 +378,72 @@ theorem C05_guard_rejects (m : Mo) (h : validOrientation m.τ m.a = false) (sc :
 
 /-! ### non-vacuity -/
 
-/-- the 3-4-5 rotation with `τ = 7 > 2·3`, `a = 1`, translation `(2, -1)`. -/
-def exMo : Mo := ⟨3 / 5, 4 / 5, 1, ⟨2, -1⟩, 7⟩
-
-example : Adm exMo := ⟨by norm_num [exMo], by decide +kernel, by norm_num [exMo]⟩
 example : exMo.c ^ 2 + exMo.s ^ 2 = 1 := by norm_num [exMo]
+
+/-- a coherent direction map exists for a non-trivial motion: quarter turns (`a = 1`, `τ = 4`, `(c, s) = (0, 1)`),
+    `dir θ` = the unit vector of the quarter `⌊θ⌋ mod 4`. -/
+def qdir (n : Int) : Pt :=
+  match n % 4 with
+  | 0 => ⟨1, 0⟩
+  | 1 => ⟨0, 1⟩
+  | 2 => ⟨-1, 0⟩
+  | _ => ⟨0, -1⟩
+
+def exQuarter : Mo := ⟨0, 1, 1, ⟨2, -1⟩, 4⟩
+def exDir (θ : Rat) : Pt := qdir ⌊θ⌋
+
+theorem qdir_succ (n : Int) : qdir (n + 1) = rot 0 1 (qdir n) := by
+  have h : n % 4 = 0 ∨ n % 4 = 1 ∨ n % 4 = 2 ∨ n % 4 = 3 := by omega
+  rcases h with h | h | h | h
+  · have h' : (n + 1) % 4 = 1 := by omega
+    simp [qdir, h, h', rot]
+  · have h' : (n + 1) % 4 = 2 := by omega
+    simp [qdir, h, h', rot]
+  · have h' : (n + 1) % 4 = 3 := by omega
+    simp [qdir, h, h', rot]
+  · have h' : (n + 1) % 4 = 0 := by omega
+    simp [qdir, h, h', rot]
+
+theorem qdir_period (n k : Int) : qdir (n + k * 4) = qdir n := by
+  have : (n + k * 4) % 4 = n % 4 := by omega
+  simp [qdir, this]
+
+theorem exQuarter_coherent : Coherent exQuarter exDir := by
+  constructor
+  · intro θ
+    show qdir ⌊θ + 1⌋ = rot 0 1 (qdir ⌊θ⌋)
+    rw [Int.floor_add_one]; exact qdir_succ _
+  · intro θ k
+    show qdir ⌊θ + (k : Rat) * 4⌋ = qdir ⌊θ⌋
+    have : (k : Rat) * 4 = ((k * 4 : Int) : Rat) := by push_cast; ring
+    rw [this, Int.floor_add_intCast]; exact qdir_period _ _
+
+example : Adm exQuarter := ⟨by norm_num [exQuarter], by decide +kernel, by norm_num [exQuarter]⟩
+example : exDir 0 = ⟨1, 0⟩ ∧ exDir 1 = ⟨0, 1⟩ ∧ exDir (5 / 2) = ⟨-1, 0⟩ := by
+  refine ⟨?_, ?_, ?_⟩ <;> simp [exDir, qdir] <;> norm_num
 
 /-- a clockwise closed triangle is in the constructor's normal form. -/
 def exTri : List Pt := [⟨0, 0⟩, ⟨0, 1⟩, ⟨1, 0⟩, ⟨0, 0⟩]
 example : polyMk exTri = .ok exTri := by decide +kernel
 example : polyMk [⟨0, 0⟩, ⟨1, 0⟩, ⟨0, 1⟩] = .ok exTri := by decide +kernel     -- counter-clockwise, open: reversed and closed
 example : ClosedRing exTri := by show lastOf _ _ = _; decide +kernel
-example : chain2 exTri = -1 := by decide +kernel
+example : chain2 exTri = -1 ∧ areaOf exTri = -1 := by decide +kernel
 
 def exLanelet : Lanelet :=
   ⟨[⟨0, 1⟩, ⟨4, 1⟩], [⟨0, 0⟩, ⟨4, 0⟩], [⟨0, -1⟩, ⟨4, -1⟩], some (⟨4, -1⟩, ⟨4, 1⟩),
    [⟨0, -1⟩, ⟨0, 1⟩, ⟨4, 1⟩, ⟨4, -1⟩, ⟨0, -1⟩]⟩
 example : exLanelet.WF := by show polyMk _ = _; decide +kernel
 
+def exBody : Shape := .rect 4 2 ⟨0, 0⟩ 0
+
 def exScenario : Scenario :=
-  ⟨[exLanelet], [⟨1, 2⟩], [⟨3, 2⟩],
-   [.static ⟨.pt ⟨1, 0⟩, .exact 6, none⟩,
-    .dynamic ⟨.region (.rect 2 1 ⟨1, 0⟩ (-6)), .iv ⟨5, 6⟩, none⟩ (.traj [⟨.pt ⟨2, 0⟩, .none, some ⟨3, 4⟩⟩]),
-    .dynamic ⟨.pt ⟨0, 0⟩, .exact 0, none⟩ (.occ [.group [.circ 1 ⟨0, 0⟩, .poly exTri]]),
-    .phantom (some [.circ 2 ⟨5, 5⟩]), .phantom none, .env (.poly exTri)]⟩
+  ⟨[exLanelet], [⟨1, 2⟩], [⟨⟨3, 2⟩, some (.rect 1 3 ⟨0, 0⟩ 0)⟩, ⟨⟨3, 3⟩, none⟩],
+   [.static exBody ⟨.pt ⟨1, 0⟩, .exact 6, none⟩,
+    .dynamic exBody ⟨.region (.rect 2 1 ⟨1, 0⟩ (-6)), .iv ⟨5, 6⟩, none⟩
+      (.traj exBody [⟨.pt ⟨2, 0⟩, .none, some ⟨3, 4⟩⟩]) [⟨.pt ⟨0, 0⟩, .exact 0, none⟩],
+    .dynamic exBody ⟨.pt ⟨0, 0⟩, .exact 0, none⟩ (.occ [.group [.circ 1 ⟨0, 0⟩, .poly exTri]]) [],
+    .phantom (some [.circ 2 ⟨5, 5⟩]), .phantom none, .env (.poly exTri)],
+   [[[⟨0, 1⟩, ⟨4, 1⟩, ⟨4, 3⟩]]]⟩
 
 example : exScenario.WF exMo.τ := by
   refine ⟨?_, ?_⟩
@@ -223,12 +469,13 @@ example : exScenario.WF exMo.τ := by
     · trivial
     · exact (by decide +kernel : polyMk exTri = .ok exTri)
 
-/-- the orientation 6 + 1 = 7 is not above τ = 7 and stays; -6 + 1 stays; the interval [5, 6] + 1 = [6, 7] stays;
-    with a = 2 the orientation 6 wraps to 1. -/
+/-- literal evaluations: the orientation 6 + 1 = 7 is not above τ = 7 and stays; with a = 2 the orientation 6 wraps to 1;
+    the interval [5, 6] + 3 wraps to [1, 2]; a point under the 3-4-5 rotation; a tuple position is a TypeError. -/
 example : exMo.wr 6 = 7 := by decide +kernel
 example : makeValid 7 (6 + 2) = 1 := by decide +kernel
 example : addAngle 7 ⟨5, 6⟩ 3 = .ok ⟨1, 2⟩ := by decide +kernel
 example : tr (3 / 5) (4 / 5) ⟨2, -1⟩ ⟨3, 1⟩ = ⟨3, 4⟩ := by decide +kernel
-example : csBeforeFix (3 / 100) 1 0 = (1, 3 / 100) := by decide +kernel
+example : (State.move exMo ⟨.other, .none, none⟩).toOption.isNone = true := by
+  simp [State.move, guard, exMo, Pos.move, Except.toOption]; decide +kernel
 
 end CR.Rigid
